@@ -246,7 +246,6 @@ def explore(mod, tier, seed, nproc):
             continue
         seen_ent.add(ent['id'])
         lines.append('KNOWN-FINDING: property=%s %s [%s]' % (mod.ID, ent['what'], ent['id']))
-    os.makedirs(os.path.join(VERIF, 'replays', mod.ID), exist_ok=True)
     for ck, v, cnt in new[:MAX_REPORTED_CLASSES]:
         path = write_replay(mod, v, tier, seed)
         lines.append('VIOLATION property=%s replay=%s  # %s: %s (%d cases)' % (mod.ID, path, ck, v['what'], cnt))
@@ -297,10 +296,14 @@ def explore(mod, tier, seed, nproc):
 def write_replay(mod, v, tier, seed):
     d = dict(property=mod.ID, tier=tier, seed=seed, **v)
     name = jhash([v['case'], v['class_key']]) + '.json'
-    path = os.path.join(VERIF, 'replays', mod.ID, name)
+    rdir = os.path.join(os.environ.get('VERIF_EVIDENCE_DIR', '') and os.path.join(os.environ['VERIF_EVIDENCE_DIR'], '..', 'replays')
+                        or os.path.join(VERIF, 'replays'), mod.ID)
+    rdir = os.path.normpath(rdir)
+    os.makedirs(rdir, exist_ok=True)
+    path = os.path.join(rdir, name)
     with open(path, 'w') as fh:
         json.dump(d, fh, indent=1, default=str)
-    test = os.path.join(VERIF, 'replays', mod.ID, 'test_' + name[:-5] + '.py')
+    test = os.path.join(rdir, 'test_' + name[:-5] + '.py')
     with open(test, 'w') as fh:
         fh.write(UNIT_TEST % dict(verif=VERIF, path=path))
     return path
@@ -317,8 +320,9 @@ if __name__ == "__main__":
 
 
 def write_evidence(pid, ev):
-    os.makedirs(os.path.join(VERIF, 'evidence'), exist_ok=True)
-    path = os.path.join(VERIF, 'evidence', pid + '.json')
+    edir = os.environ.get('VERIF_EVIDENCE_DIR') or os.path.join(VERIF, 'evidence')
+    os.makedirs(edir, exist_ok=True)
+    path = os.path.join(edir, pid + '.json')
     tmp = path + '.tmp'
     with open(tmp, 'w') as fh:
         json.dump(ev, fh, indent=1, default=str)
